@@ -14,7 +14,7 @@ RULE = ("Generated: (mode in {explicit psi, explicit rho, model complex, model p
         "deterministic non-real operand; 'default_dict' checks the default dictionary itself. Oracle: dense Kronecker product U "
         "(site 0 leftmost), U psi, U rho U^dagger, their entries / diagonal at my own big-endian indices. Non-trivial = basis "
         "contains Y or a non-real user unitary AND has >= 2 distinct letters AND the operand has non-real entries.")
-RULE_EXT = ("Extended as built: user unitaries from the angle family {0, +-pi, pi/2, 2pi, +-7, drawn}, given as tensors, nested lists or ndarrays (double precision kept); operand reuse sequences (same operand rotated in a second basis, Z-only first), transposed-view (non-contiguous) operands, index batches of 257-400 entries, explicit unitaries= equal to the state's own dictionary.")
+RULE_EXT = ("Extended as built: user unitaries from the angle family {0, +-pi, pi/2, 2pi, +-7, drawn}, given as tensors, nested lists or ndarrays (double precision kept); operand reuse sequences (same operand rotated in a second basis, Z-only first), transposed-view (non-contiguous) operands, index batches of 257-400 entries, explicit unitaries= equal to the state's own dictionary. Rounds 5-6: the state's own dictionary disagrees with the explicit unitaries= argument (explicit wins for every letter); create_dict keeps none of the caller's buffers and default dictionaries are independent.")
 RULE = RULE + " " + RULE_EXT
 ASSUMPTIONS = ["explicit rho arguments are Hermitian (the property speaks of density matrices)",
                "Z is never overridden in a user dictionary (the library's fast path defines the reference basis by the letter Z)",
@@ -292,6 +292,20 @@ def check_default_dict(c):
         require(isinstance(d2[k], torch.Tensor) and d2[k].dtype == torch.double and bool(torch.all((R.lib_to_c(d2[k]) - R.unitary_from_angles(*c["ang"])).abs() <= 1e-15)),
                 "dict:user-list-form", f"user operator {k} given as nested list / ndarray is not stored as the same double tensor")
     require(all(bool(torch.all(R.lib_to_c(extra[k]) == R.lib_to_c(d[k]))) for k in "YZ"), "dict:defaults-changed", "adding user operators changed an untouched default")
+    # the dictionary owns its entries: the caller's source buffers (double tensor, float64 ndarray, float32 tensor) are re-used for
+    # something else afterwards, and the returned entries are edited by nobody
+    want = R.unitary_from_angles(*c["ang"])
+    src_t = R.c_to_lib(want).clone()
+    src_a = np.array(R.c_to_lib(want).tolist(), dtype=np.float64)
+    d3 = UN.create_dict(H=src_t, Q=src_a)
+    src_t.mul_(-1.0)
+    src_a *= -1.0
+    for k in ("H", "Q"):
+        require(bool(torch.all((R.lib_to_c(d3[k]) - want).abs() <= 1e-15)), "dict:keeps-callers-buffer",
+                f"the dictionary entry {k} changed when the caller re-used the tensor / array it had passed to create_dict")
+    d4 = UN.create_dict()
+    d4["X"].mul_(0.0)
+    require(bool(torch.all(R.lib_to_c(UN.create_dict()["X"]) == R.lib_to_c(d["X"]))), "dict:shared-defaults", "editing one default dictionary's entry changed the next create_dict()")
     return {}
 
 
